@@ -209,4 +209,46 @@ theorem Seg.frame (o : Opts) (hmfd : o.maxFrameDepth ≠ 0) {path : Path} {put :
   simp only [bind_eq, pure_eq, P.bind, P.pure, hn3, hty3, Bool.false_eq_true, if_false, getCif, setCif, hvf.upd]
   rw [← hX]
 
+theorem termFollow_frameTerm (rest : List TokSpec) : termFollow ((.frameTerm, []) :: rest) := ⟨_, _, _, rfl, rfl⟩
+
+theorem termFollow_frameHead (fc : Str) (rest : List TokSpec) : termFollow ((.frameHead, fc) :: rest) := ⟨_, _, _, rfl, rfl⟩
+
+/-- **one level of nesting**: well-formed elements `preE`, the save frame `save_fc … save_` holding a segment, well-formed
+    elements `postE` — a segment of the host (data block, or frame at any depth when frames nest).  The reports are those of the
+    inner segment, `|preE| + 1` tokens later; the host holds what `preE` denotes, the frame as the inner segment leaves it (pruned
+    of empty loops), and what `postE` denotes. -/
+theorem Seg.level (o : Opts) (hmfd : o.maxFrameDepth ≠ 0) {path : Path} {put : Container → Cif} {code : Str} (hv : View o path put code)
+    (isBlock : Bool) (preE postE : List Elem) (fc : Str) (seen fseen seen2 fseen2 : List Str) (fs : List Container) (ls : List Loop)
+    (T : List TokSpec) (fsb : List Container) (lsb : List Loop) (sp : List (Code × Nat)) (n k need : Nat)
+    (hlvl : isBlock = true ∨ o.maxFrameDepth ≠ 1)
+    (hpre : wfElems o preE seen fseen = true) (hseen : ∀ k ∈ normNames o ls, k ∈ seen) (hfseen : ∀ c ∈ fs, o.norm c.code ∈ fseen)
+    (hcode : wfCode fc = true)
+    (hnew : ∀ c ∈ (denoteElems o.dia o.normKey preE fs ls).1, codeIs o.norm (o.norm fc) c = false)
+    (hpost : wfElems o postE seen2 fseen2 = true)
+    (hseen2 : ∀ k ∈ normNames o (denoteElems o.dia o.normKey preE fs ls).2, k ∈ seen2)
+    (hfseen2 : ∀ c ∈ (denoteElems o.dia o.normKey preE fs ls).1 ++ [pruneC (.mk fc fsb lsb)], o.norm c.code ∈ fseen2)
+    (hbody : Seg o (path ++ [o.norm fc])
+      (fun c => put (.mk code ((denoteElems o.dia o.normKey preE fs ls).1 ++ [c]) (denoteElems o.dia o.normKey preE fs ls).2))
+      fc false T [] [] fsb lsb sp n k need termFollow) :
+    Seg o path put code isBlock ((elemsToks preE ++ ((.frameHead, fc) :: (T ++ [(.frameTerm, [])]))) ++ elemsToks postE) fs ls
+      (denoteElems o.dia o.normKey postE ((denoteElems o.dia o.normKey preE fs ls).1 ++ [pruneC (.mk fc fsb lsb)])
+        (denoteElems o.dia o.normKey preE fs ls).2).1
+      (denoteElems o.dia o.normKey postE ((denoteElems o.dia o.normKey preE fs ls).1 ++ [pruneC (.mk fc fsb lsb)])
+        (denoteElems o.dia o.normKey preE fs ls).2).2
+      (shiftSpec (elemsToks preE).length (shiftSpec 1 sp))
+      ((elemsToks preE).length + (1 + n + 1) + (elemsToks postE).length)
+      (postE.length + (1 + preE.length)) (szElems preE + (need + k + 2) + szElems postE) termFollow := by
+  have hl3 : isBlock = true ∨ o.maxFrameDepth ≠ 1 → ∀ es : List Elem, isBlock = true ∨ noFrames es = true ∨ o.maxFrameDepth ≠ 1 := by
+    intro h es; rcases h with h | h
+    · exact Or.inl h
+    · exact Or.inr (Or.inr h)
+  have A := Seg.elems o hmfd hv isBlock preE seen fseen fs ls (hl3 hlvl preE) hpre hseen hfseen
+  have B := Seg.frame o hmfd hv isBlock fc (denoteElems o.dia o.normKey preE fs ls).1 (denoteElems o.dia o.normKey preE fs ls).2 T fsb lsb
+    sp n k need termFollow hlvl hcode hnew hbody termFollow_frameTerm
+  have C := Seg.elems o hmfd hv isBlock postE seen2 fseen2
+    ((denoteElems o.dia o.normKey preE fs ls).1 ++ [pruneC (.mk fc fsb lsb)]) (denoteElems o.dia o.normKey preE fs ls).2
+    (hl3 hlvl postE) hpost hseen2 hfseen2
+  have h := Seg.comp (Seg.comp A B (fun rest _ => termFollow_frameHead fc _)) C (fun _ _ => trivial)
+  simpa only [List.nil_append, shiftSpec, List.map_nil, List.append_nil] using h
+
 end CifModel.Model.Parser
